@@ -74,7 +74,7 @@ def gen(chk, mpmath, rng):
                 got = mp.nsum(lambda j, k: 1 / mp.mpf((j + 1) * (k + 2)), [0, m1], [0, m2])
                 exact = ex.mul(ex.sumk(0, m1, ex.div(1, ex.add(ex.K, 1))), ex.sumk(0, m2, ex.div(1, ex.add(ex.K, 2))))
                 yield ex.relabs_close(got, exact, 10, p), {"key": "finite2d/nsum", "m": [m1, m2], "p": p, "what": "2-d finite nsum differs from the iterated exact sum"}
-        except (ZeroDivisionError, ValueError, mpmath.libmp.NoConvergence):
+        except (ZeroDivisionError, ValueError, TypeError, mpmath.libmp.NoConvergence):
             yield None
 
 
